@@ -28,6 +28,7 @@ type SpecEnv struct {
 	qn         *int
 	guard      []Term // antecedents in force (assume polarity), for lazily instantiated universals
 	lazyOK     bool   // forallref may be registered as a lazy universal / skolemised
+	nameFallback *State // inside old(): locals that did not exist at entry keep their current value
 	pol        int    // +1: formula will be proved, -1: formula will be assumed, 0: unknown polarity
 }
 
@@ -108,6 +109,18 @@ func (e *SpecEnv) evalInt(x ast.Expr) Term {
 }
 
 func (e *SpecEnv) lookup(name string) (Value, bool) {
+	if v, ok := e.lookup1(name); ok {
+		return v, true
+	}
+	if !e.calleeMode {
+		if nn, ok := e.ex.renames[name]; ok {
+			return e.lookup1(nn)
+		}
+	}
+	return nil, false
+}
+
+func (e *SpecEnv) lookup1(name string) (Value, bool) {
 	if v, ok := e.vars[name]; ok {
 		return v, true
 	}
@@ -142,6 +155,11 @@ func (e *SpecEnv) lookup(name string) (Value, bool) {
 	if !e.calleeMode {
 		if v, ok := e.cur.names[name]; ok {
 			return v, true
+		}
+		if e.nameFallback != nil {
+			if v, ok := e.nameFallback.names[name]; ok {
+				return v, true
+			}
 		}
 	}
 	// named constants of the package (nodeKind4, maxPrefixLen, ...)
@@ -567,7 +585,11 @@ func (e *SpecEnv) callExpr(n *ast.CallExpr) Value {
 		if e.old == nil {
 			e.fail(n, "old() without an entry state")
 		}
-		return e.with(e.old).eval(arg(0))
+		o := e.with(e.old)
+		if o.nameFallback == nil {
+			o.nameFallback = e.cur
+		}
+		return o.eval(arg(0))
 	case "implies":
 		a := e.flip().evalBool(arg(0))
 		if a.IsFalse() {
@@ -963,6 +985,10 @@ func (e *SpecEnv) callExpr(n *ast.CallExpr) Value {
 			return BoolV{T: True}
 		}
 		return BoolV{T: Eq(e.cur.H(ex, name, srt), e.old.H(ex, name, srt))}
+	case "mkslice": // mkslice(obj, off, len): the byte slice [off, off+len) of object obj
+		o := e.refTerm(e.eval(arg(0)), n)
+		off, ln := e.evalInt(arg(1)), e.evalInt(arg(2))
+		return SliceV{Kind: SlBytes, Obj: o, Off: off, Len: ln, Cap: ln, Elem: types.Typ[types.Uint8]}
 	case "bytesEq": // bytesEq(a, b): slices equal as byte strings
 		a, b := e.eval(arg(0)).(SliceV), e.eval(arg(1)).(SliceV)
 		return BoolV{T: ex.bytesEqual(e.cur, a, b)}
